@@ -308,6 +308,25 @@ func cmdEscape(f hx.Flags, r *hx.Result) {
 	for _, bs := range escClassBytes {
 		edges = append(edges, bs[0], bs[len(bs)-1])
 	}
+	// position sweep: one (or two adjacent) class-edge bytes at every offset of otherwise plain strings whose
+	// lengths straddle machine-word and block sizes - word-at-a-time or chunked fast paths must not depend on alignment
+	for _, L := range []int{7, 8, 9, 15, 16, 17, 24, 31, 32, 33, 63, 64, 65} {
+		for pos := 0; pos < L; pos++ {
+			for ei, e := range edges {
+				in := bytes.Repeat([]byte{'a'}, L)
+				in[pos] = e
+				if ei%2 == 1 && pos+1 < L {
+					in[pos+1] = edges[(ei+pos)%len(edges)]
+				}
+				want, err := table.expectLong(in, maxWin)
+				if err != nil {
+					r.SetInfra("%v", err)
+					return
+				}
+				escCheck(r, in, want, "position-sweep")
+			}
+		}
+	}
 	nr := f.Int("random", 3000)
 	for k := 0; k < nr; k++ {
 		var in []byte
